@@ -18,6 +18,7 @@ EXPLANATION = (
     "function writes a module-level or imported mutable object, a mutable class attribute or a mutable default argument - except into a memo table "
     "whose key determines, by content, everything its entries are computed from (cijsa/memo.py: keys by value, repr() of plain data, shape + element type + bytes "
     "of an array, or entries validated by such a stamp; id() / partial keys are reported with the quantity the key misses); "
+    "the keyword table of a result writer is written while the writer is constructed and by no other method, directly or through an alias (R14.8, a who-may-write table); "
     "functions that mutate a parameter are called with fresh values only and no cached property value is stored into; every "
     "iteration over an unordered collection - or over a mapping whose key order was inherited from one (the merged configuration) - has a "
     "commutative body (keyed stores only when different members give different keys) and no sequence is made from a set outside an order-insensitive consumer; no ambient source (time, random, environment, cwd, id) "
